@@ -31,6 +31,8 @@ type evalEnv struct {
 	loopEntry      *State // state on entry to the loop whose invariant is being evaluated
 	loopEntryNames map[string]Value
 	inEntry        bool
+	inPre          bool   // inside pre(): heap reads go to the loop-head state
+	loopHead       *State // state at the head of the current iteration (loop assert clauses)
 	depth          int
 }
 
@@ -72,6 +74,9 @@ func (env *evalEnv) state() *State {
 	}
 	if env.inEntry && env.loopEntry != nil {
 		return env.loopEntry
+	}
+	if env.inPre && env.loopHead != nil {
+		return env.loopHead
 	}
 	return env.st
 }
@@ -413,6 +418,8 @@ func (fr *Frame) evalLet(name string, le Expr, env *evalEnv) (Value, error) {
 		key += "|old"
 	} else if env.inEntry {
 		key += "|entry"
+	} else if env.inPre {
+		key += "|pre"
 	}
 	if env.qdepth == 0 && env.letCache != nil {
 		if v, ok := env.letCache[key]; ok {
@@ -915,10 +922,11 @@ func (fr *Frame) evalCall(x *ECall, env *evalEnv) (Value, error) {
 		if env.preNames == nil {
 			return nil, fmt.Errorf("pre() is only available in loop assert clauses")
 		}
-		save := env.names
+		save, savePre := env.names, env.inPre
 		env.names = env.preNames
+		env.inPre = true
 		v, err := arg(0)
-		env.names = save
+		env.names, env.inPre = save, savePre
 		return v, err
 	case "len", "cap":
 		v, err := arg(0)
